@@ -53,6 +53,11 @@ def make_ctx(bound, symbols=None):
             keys = _keys_of_prefix(prefix)
             if keys is not None:
                 self.vlog.append(keys)
+            if type(cfgobj).__name__ == "ImportNode":
+                r = super().evaluate_node(cfgobj, prefix)
+                if not any(c[0] == str(cfgobj) and c[3] == (keys or []) for c in vmod.CALLS):
+                    vmod.CALLS.append((str(cfgobj), (), (), keys or []))     # an import that went through, once per node
+                return r
             if isinstance(cfgobj, FunctionNode):
                 # the recording targets attribute each call to the innermost function node being evaluated
                 vmod.STACK.append(keys or [])
@@ -186,12 +191,12 @@ def observe(tree, lifecycle=False):
         out["status"] = status_of_exception(e) if isinstance(e, errors.Error) else (
             "RequiredError" if str(e).startswith("The following required nodes") else "Crash:ValueError")
         out["ev"] = ctx.vlog
-        out["calls"] = [[c[3] or [], "vmod." + c[0]] for c in vmod.CALLS]
+        out["calls"] = [[c[3] or [], c[0], _args_plain(c)] for c in vmod.CALLS]
         return out
     except Exception as e:  # noqa
         out["status"] = status_of_exception(e)
         out["ev"] = ctx.vlog
-        out["calls"] = [[c[3] or [], "vmod." + c[0]] for c in vmod.CALLS]
+        out["calls"] = [[c[3] or [], c[0], _args_plain(c)] for c in vmod.CALLS]
         return out
     ids, issues = [], []
     data = plain_result(cfg, [], ids, issues)
@@ -218,7 +223,7 @@ def observe(tree, lifecycle=False):
             continue
         groups.setdefault(i, []).append(p)
     out["classes"] = sorted(groups.values(), key=lambda g: str(g))
-    out["calls"] = [[c[3] or [], "vmod." + c[0]] for c in vmod.CALLS]
+    out["calls"] = [[c[3] or [], c[0], _args_plain(c)] for c in vmod.CALLS]
     out["ev"] = ctx.vlog
     out["ids"] = out["ids"] + out.pop("arg_ids")
     if P.project(tree) != before:
@@ -232,6 +237,16 @@ def observe(tree, lifecycle=False):
 
 def _kt(k):
     return (k["t"], k["n"], k["s"])
+
+
+def _args_plain(c):
+    """what a call received, as [[key, plain data], ...]"""
+    out = []
+    for i, a in enumerate(c[1]):
+        out.append([S.ikey(i), plain_result(a, [], [], [])])
+    for k, a in c[2]:
+        out.append([strict_key(k), plain_result(a, [], [], [])])
+    return out
 
 
 def _value_at(v, path):
